@@ -253,10 +253,12 @@ def stepDecB (which : String) (dflt : Style) (h : String) (table : String) (impl
              else "bad-op"
     -- the same string through the reader model (ParserIO: bufio fill loop, UTF-8 decoding, print's look-ahead over the buffer; one
     -- read, as ParseStyledString does since the F122 repair): must give what the oracle model gives (`Props.C18Reader.parseStyledIO_eq`)
-    let m := if which = "cells" && n ≤ 700 then
-               let m2 := exStr (fun cs => cellsStr (cs.map cellOfB))
-                 (VaxisModel.Model.SgrReader.parseStyledIO (clusterAtOf tb rs) (VaxisModel.Model.SgrReader.utf8 rs))
-               if m2 = m then m else s!"READER-MODEL-DIFFERS {m2} / {m}"
+    let m := if which = "cells" then
+               let m2 := match VaxisModel.Model.SgrReader.parseStyledSrc (clusterAtOf tb rs) (VaxisModel.Model.SgrReader.utf8 rs) with
+                 | some r => exStr (fun cs => cellsStr (cs.map cellOfB)) r
+                 | none => "reader-shape-unknown"
+               -- the source-following reader model is the model column; a difference from the oracle model is shown
+               if m2 = m then m else s!"{m2}"
              else m
     s!"{m}\t{impl}\t{if impl = "panic" then "FAIL panic" else "ok"}"
   | _, _ => "bad-op\tbad-op\tbad-op"
@@ -269,6 +271,11 @@ def parseLCell? (t : String) : Option (Cell G × String × String) :=
   | [g, st, url, ps] => (parseStyle? st).map (fun s => (⟨g, s⟩, url, ps))
   | _ => none
 
+def lcellB? (c : Cell G × String × String) : Option VaxisModel.Model.SgrLinks.LCell :=
+  match runesOfHex? c.1.g, runesOfHex? c.2.1, runesOfHex? c.2.2 with
+  | some g, some url, some ps => some ⟨⟨g, c.1.st⟩, ⟨url, ps⟩⟩
+  | _, _, _ => none
+
 /-- Hyperlinks are not in the model's `Style`: the model predicts graphemes and the modelled style fields (both sides are
     printed without the links); the oracle is on the implementation's cells: `ParseStyledString` must return the same
     graphemes, colours, attributes, underline (it drops hyperlinks, which the property does not list); `NewStyledString`
@@ -280,6 +287,10 @@ def stepRtl (which : String) (lcells : List (Cell G × String × String)) (impl 
   let ic := match back with
     | some b => cellsStr (b.map Prod.fst)
     | none => impl
+  -- the links are judged only where they can come back (`Props.C18Links.roundtrip_ss_links_full_bytes`: `LinksRestorable`)
+  let restorable : Bool := match lcells.mapM lcellB? with
+    | some cs => VaxisModel.Model.SgrLinks.restorableB {} cs
+    | none => false
   let verdict :=
     if impl = "panic" then "FAIL panic"
     else if !(cells.all fun c => wfB c.st && c.g ≠ "-") then "-"
@@ -287,14 +298,9 @@ def stepRtl (which : String) (lcells : List (Cell G × String × String)) (impl 
       | none => s!"FAIL unparsable cells {impl}"
       | some b =>
         if b.map Prod.fst ≠ cells then s!"FAIL round trip with hyperlinks changed graphemes or styles: {ic}"
-        else if which = "ss" ∧ b ≠ lcells then s!"FAIL hyperlinks not restored: {impl}"
+        else if which = "ss" ∧ b ≠ lcells ∧ restorable then s!"FAIL hyperlinks not restored: {impl}"
         else "ok"
   s!"{mc}\t{ic}\t{verdict}"
-
-def lcellB? (c : Cell G × String × String) : Option VaxisModel.Model.SgrLinks.LCell :=
-  match runesOfHex? c.1.g, runesOfHex? c.2.1, runesOfHex? c.2.2 with
-  | some g, some url, some ps => some ⟨⟨g, c.1.st⟩, ⟨url, ps⟩⟩
-  | _, _, _ => none
 
 def lcellStrB (c : VaxisModel.Model.SgrLinks.LCell) : String :=
   s!"{hexOfRunes c.cell.g}/{styleStr c.cell.st}/{hexOfRunes c.link.url}/{hexOfRunes c.link.params}"
